@@ -93,37 +93,37 @@ Definition c03_fails (c0 : container) (rps : list response) : Prop :=
 (* W7, annotations: the second plugin's "--a" makes the code forget the first plugin's removal of a *)
 Definition wit_w7_ann := [ex_R (with_a_ann adj_empty [("-a","")]); ex_R (with_a_ann adj_empty [("--a","")])].
 Lemma wit_w7_ann_fails : c03_fails wit_c0 wit_w7_ann.
-Proof. eexists. split; vm_compute; reflexivity. Qed.
+Proof. eexists. split; [vm_compute; reflexivity|]. vm_compute. reflexivity. Qed.
 
 Definition wit_w7_mounts := [ex_R (with_a_mounts adj_empty [ex_mt "-/m" ""]); ex_R (with_a_mounts adj_empty [ex_mt "--/m" ""])].
 Lemma wit_w7_mounts_fails : c03_fails wit_c0 wit_w7_mounts.
-Proof. eexists. split; vm_compute; reflexivity. Qed.
+Proof. eexists. split; [vm_compute; reflexivity|]. vm_compute. reflexivity. Qed.
 
 Definition wit_w7_env := [ex_R (with_a_env adj_empty [("-E","")]); ex_R (with_a_env adj_empty [("--E","")])].
 Lemma wit_w7_env_fails : c03_fails wit_c0 wit_w7_env.
-Proof. eexists. split; vm_compute; reflexivity. Qed.
+Proof. eexists. split; [vm_compute; reflexivity|]. vm_compute. reflexivity. Qed.
 
 Definition wit_w7_devices := [ex_R (with_a_devices adj_empty [ex_dv "-/dev/a" 0%Z]); ex_R (with_a_devices adj_empty [ex_dv "--/dev/a" 0%Z])].
 Lemma wit_w7_devices_fails : c03_fails wit_c0 wit_w7_devices.
-Proof. eexists. split; vm_compute; reflexivity. Qed.
+Proof. eexists. split; [vm_compute; reflexivity|]. vm_compute. reflexivity. Qed.
 
 (* W7=: a plain environment name with '=': "X=Y" and "X" are different items for the ledger and the reply
    but one variable for the container *)
 Definition wit_env_eq := [ex_R (with_a_env adj_empty [("X=Y","1")]); ex_R (with_a_env adj_empty [("X","2")])].
 Lemma wit_env_eq_fails : c03_fails wit_c0 wit_env_eq.
-Proof. eexists. split; vm_compute; reflexivity. Qed.
+Proof. eexists. split; [vm_compute; reflexivity|]. vm_compute. reflexivity. Qed.
 
 (* W7': the command line left after the marker begins with "" — re-read as a marker in the reply *)
 Definition wit_args_marker := [ex_R (with_a_args adj_empty ["";"";"x"])].
 Lemma wit_args_marker_fails : c03_fails wit_c0 wit_args_marker.
-Proof. eexists. split; vm_compute; reflexivity. Qed.
+Proof. eexists. split; [vm_compute; reflexivity|]. vm_compute. reflexivity. Qed.
 
 (* W4: args = [""] empties the command line shown to the next plugin; the reference leaves it alone *)
 Definition wit_args_w4 := [ex_R (with_a_args adj_empty [""]); ex_R adj_empty].
 Lemma wit_args_w4_fails :
   exists x, nth_error (fst (run_request (RCreate wit_c0) wit_args_w4)) 1 = Some (ShownContainer x) /\
             obs_eqb x (apply_all wit_c0 (firstn 1 (adjs wit_args_w4))) = false.
-Proof. eexists. split; vm_compute; reflexivity. Qed.
+Proof. eexists. split; [vm_compute; reflexivity|]. vm_compute. reflexivity. Qed.
 
 (* each witness violates wf_create *)
 Lemma wit_not_wf :
@@ -140,4 +140,4 @@ Lemma wit_update_dropped :
   some_dropped None wit_ups = false /\ some_dropped None (firstn 2 wit_ups) = true /\
   exists x, nth_error (fst (run_request (RUpdate "c" res_empty) wit_ups)) 2 = Some (ShownResources x) /\
             res_obs_eqb x (overlay "c" res_empty (firstn 2 wit_ups)) = false.
-Proof. split; [vm_compute; reflexivity|]. split; [vm_compute; reflexivity|]. eexists. split; vm_compute; reflexivity. Qed.
+Proof. split; [vm_compute; reflexivity|]. split; [vm_compute; reflexivity|]. eexists. split; [vm_compute; reflexivity|]. vm_compute. reflexivity. Qed.
